@@ -178,7 +178,13 @@ def gen_start(rng):
     v = objgen.rand_vars(rng, ascii_only=True, bound=2 ** 32)
     if rng.random() < 0.06:
         v[rng.choice(["major", "minor", "patch", "post", "dev"])] = 2 ** 64 - 1 - rng.choice([0, 1])
-    return ["version", "--source", "stdin", "--output-format", "zerv"], ron.zerv_to_ron(schema, v)
+    argv = ["version", "--source", "stdin", "--output-format", "zerv"]
+    if rng.random() < 0.3:
+        # --tag-version on top of a detected (stdin) version: the override sets the start version absolutely
+        f = c07.gen_fields(rng, 2 ** 32 - 1)
+        tag, fmt = (c07.canon_semver(f), "semver") if rng.random() < 0.5 else (c07.canon_pep440(f), "pep440")
+        argv += ["--tag-version", tag, "--input-format", fmt]
+    return argv, ron.zerv_to_ron(schema, v)
 
 
 def parse_out(r):
@@ -214,6 +220,19 @@ def work(bins, seed, nstarts, per_start):
             continue
         st["starts"] += 1
         _, schema0, vars0 = base
+        if stdin is not None and "--tag-version" in base_argv:
+            # metamorphic: the version fields must be those of the tag alone, whatever the stdin object carried
+            i = base_argv.index("--tag-version")
+            alone = parse_out(pr.call(dict(op="cli", argv=["zerv", "version", "--source", "none", "--tag-version", base_argv[i + 1], "--input-format", base_argv[i + 3],
+                                                          "--output-format", "zerv"])))
+            st["runs"] += 1
+            st["tag_override_on_stdin"] = st.get("tag_override_on_stdin", 0) + 1
+            if alone[0] == "ok":
+                for k in VERSION_FIELDS:
+                    if alone[2].get(k) != vars0.get(k):
+                        bad.append(("tag-version-override-not-absolute", "--tag-version %s on a stdin object leaves %s=%r (the tag alone gives %r)" % (
+                            base_argv[i + 1], k, vars0.get(k), alone[2].get(k)), dict(argv=base_argv, stdin=stdin)))
+                        break
         for _ in range(per_start):
             fs = gen_flagset(rng, schema0)
             if not fs.groups:
